@@ -59,6 +59,24 @@ def generate(rng):
                         st['dt'] = max(0, int(op['to'] * 1e6) + rng.choice([-30, -10, -3, -1, 0, 1, 3, 10]))
                         break
                 break
+    if rng.random() < 0.04:
+        # a call answered long before its deadline, then a longer call that is still outstanding when the FIRST call's
+        # deadline passes and whose text arrives after it: whatever the first call armed must be gone by then
+        t1 = rng.choice([0.002, 0.01, 0.05])
+        a, b = rng.choice([('ab', 'ca'), ('b', 'c'), ('abc', 'cba')])
+        scn['peer'] = [{'op': 'w', 'd': 'c' * rng.randint(0, 2) + a, 'dt': int(t1 * 1e6 * rng.choice([0.05, 0.2]))},
+                       {'op': 'w', 'd': 'a' * rng.randint(0, 2) + b, 'dt': int(t1 * 1e6 * rng.choice([1.2, 2.0, 3.5]))},
+                       {'op': 'pause'}]
+        scn['ops'] = [{'op': 'expect', 'api': rng.choice(['expect', 'expect_exact']), 'pats': [{'t': 'ex', 'p': a}], 'to': t1,
+                       'sws': -1, 'async': True},
+                      {'op': 'expect', 'api': rng.choice(['expect', 'expect_exact']), 'pats': [{'t': 'ex', 'p': b}], 'to': t1 * 6,
+                       'sws': -1, 'async': rng.random() < 0.8}]
+        for op in scn['ops']:
+            if op['api'] == 'expect':
+                op['pats'] = [{'t': 're', 'p': op['pats'][0]['p']}]
+        scn.pop('tear', None)
+        scn.pop('twin', None)
+        scn['sws'] = None
     return scn
 
 
@@ -204,6 +222,12 @@ def run(scn, clauses=None):
             if to is not None and c['t1'] - c['t0'] > to * 1e6 + EPS_US and not out:
                 out.append(Violation('C14.overrun', 'awaited call with timeout %r took %.3f virtual s' % (to, (c['t1'] - c['t0']) / 1e6),
                                      None, {'call': engine._call_brief(c)}))
+            # ... and, like the blocking call, never report TIMEOUT before the time is up (parity with C05's clause)
+            kind_, val_ = c['outcome']
+            is_to_ = (kind_ == 'exc' and isinstance(val_, TIMEOUT)) or (kind_ == 'ret' and c.get('after') is TIMEOUT)
+            if is_to_ and to is not None and to > 0 and c['t1'] - c['t0'] < to * 1e6 - 200 and not out and kind_ != 'cancel':
+                out.append(Violation('C14.early_timeout', 'awaited call with timeout %r reported TIMEOUT after %.6f virtual s'
+                                     % (to, (c['t1'] - c['t0']) / 1e6), None, {'call': engine._call_brief(c)}))
         if state.get('idle_eof_bad') and not out:
             out.append(Violation('C14.eof_after_idle', 'stream ended while no call was outstanding; the next awaited call did not report EOF',
                                  None, {'call': state['idle_eof_bad']}))
